@@ -19,6 +19,7 @@ static FILE *tr;
 /* All times are logged relative to the scenario's clock origin rounded down to a whole second, so that
  * scenarios may run at any magnitude of the monotonic clock (2^32 ms and beyond) while the logged numbers
  * stay small (TLC integers are 32-bit).  Differences and second boundaries are preserved exactly. */
+size_t lltd_verif_automata_timeouts(const automata *autom, int *out, size_t cap);
 static uint64_t t_origin = 0;                 /* multiple of 1000 */
 /* signed and clamped: a time before the origin (or absurdly far after it) stays a number TLC can read, and stays
  * wrong for the monitor to see */
@@ -200,10 +201,13 @@ static void do_new(int with_tbl) {
     vp_if[1] = &s->v;
     cur = s;
     ev_begin("new");
-    fprintf(tr, "\"mT\":[%d,%d,%d],\"sT\":[%d,%d,%d,%d],", s->mappingAutomata->states_table[0].timeout,
-            s->mappingAutomata->states_table[1].timeout, s->mappingAutomata->states_table[2].timeout,
-            s->sessionAutomata->states_table[0].timeout, s->sessionAutomata->states_table[1].timeout,
-            s->sessionAutomata->states_table[2].timeout, s->sessionAutomata->states_table[3].timeout);
+    {
+        /* the per-state timeouts through the verification hook of lltdAutomata.c, not through the struct layout */
+        int mt[8] = {0}, st_[8] = {0};
+        (void)lltd_verif_automata_timeouts(s->mappingAutomata, mt, 8);
+        (void)lltd_verif_automata_timeouts(s->sessionAutomata, st_, 8);
+        fprintf(tr, "\"mT\":[%d,%d,%d],\"sT\":[%d,%d,%d,%d],", mt[0], mt[1], mt[2], st_[0], st_[1], st_[2], st_[3]);
+    }
     log_state();
     ev_end();
 }
